@@ -186,6 +186,37 @@ class Prop:
     def __init__(self, predef):
         self.predef = predef
 
+    def continuations(self, lines, rng):
+        """suffixes that turn a difference of table shape into a failing clause of C17 (if there is one):
+        look every interned text up again by text and by id, intern it again, grow the table across the
+        next thresholds with fresh texts (re-checking the old ones after every growth), pre-size by small
+        and large amounts"""
+        texts = []
+        for l in lines:
+            t = l.split()
+            if len(t) == 2 and t[0] in ("add", "adds", "addp") and t[1] not in texts:
+                texts.append(t[1])
+        def recheck(ts):
+            return ["get " + x for x in ts] + ["add " + x for x in ts] + ["all"]
+        fresh = ["66%04x" % i for i in range(400)]
+        yield recheck(texts)
+        for k in (1, 2, 3, 5, 8, 13, 21, 40, 80, 160):
+            yield ["add " + x for x in fresh[:k]] + recheck(texts + fresh[:k])
+        for k in (6, 20, 65, 150):
+            for m in (1, 3, 10, 40):
+                yield ["add " + x for x in fresh[:k]] + ["more %d" % m] + recheck(texts + fresh[:k]) + \
+                      ["add " + x for x in fresh[k:k + 5]] + recheck(texts + fresh[:k + 5])
+        for _ in range(40):
+            k = rng.randint(1, 200)
+            seq = []
+            for x in fresh[:k]:
+                seq.append("add " + x)
+                if rng.random() < 0.1:
+                    seq.append("more %d" % rng.choice([1, 2, 5, 30]))
+                if rng.random() < 0.2:
+                    seq.append("get " + rng.choice(texts + fresh[:k]))
+            yield seq + recheck(texts + fresh[:k])
+
     def classify(self, lines, impl, crash, model):
         if crash:
             return "violation", "implementation crashed / sanitizer report / hang: " + crash, crash
